@@ -107,6 +107,9 @@ func runC07(rc *RunCtx) {
 		sc.ConfOneFunc = []int{0, 0, 0, 1, 2}[rc.Scen.Choose(5)]
 	}
 	sc.WrappedTimeouts = !rc.Scen.Has("cutmode") && rc.Scen.Choose(3) == 0
+	if sc.Kind != KSerial && sc.ConfOneFunc == 0 && !rc.Scen.Has("cutmode") && rc.Scen.Choose(3) == 0 {
+		sc.ObserveParse = true // the client comes from NewClient with the protocol's functions given in the config
+	}
 	// sometimes a second call follows on the same client; the first response is held across it
 	var sc2 *C1
 	if !rc.Scen.Has("cutmode") && !sc.LongSilence && rc.Scen.Chance(1, 5) {
@@ -131,6 +134,7 @@ func runC07(rc *RunCtx) {
 	if sc2 == nil && !rc.Scen.Has("cutmode") && !sc.LongSilence && rc.Scen.Chance(1, 8) {
 		if pre, ok := genC07Kind(rc, int(sc.Kind)); ok {
 			pre.ReadTimeout, pre.PortTimeout, pre.TOStyle, pre.Flusher, pre.WriteTimeout, pre.Hooks = sc.ReadTimeout, sc.PortTimeout, sc.TOStyle, sc.Flusher, sc.WriteTimeout, sc.Hooks
+			pre.ObserveParse, pre.ConfOneFunc, pre.WrappedTimeouts = sc.ObserveParse, sc.ConfOneFunc, sc.WrappedTimeouts
 			pre.Fault = FStall
 			pre.Full = pre.Reply
 			pre.Reply = pre.Reply[:rc.Scen.Choose(2)*rc.Scen.Choose(len(pre.Reply))] // nothing at all, or a strict prefix
